@@ -24,5 +24,5 @@ For each change i = 1..3 write, under {out}/m<i>/ :
   - patch.diff  : `git diff` of the change against the unmodified worktree (must apply with `git apply` at the repository root)
   - demo.py     : a small standalone program (run as `cd <repo root> && /venv/bin/python {out}/m<i>/demo.py`, it must `import tangermeme` from the current directory - insert os.getcwd() at sys.path[0]) that exits 0 on the unmodified code and exits non-zero (assertion failure) with the change applied; it must test the PROPERTY (a behavioural statement), not the implementation detail.
   - notes.txt   : 2-5 lines: what was changed, what it needs in order to manifest, which tests you ran.
-After producing each patch, restore the worktree (`git -C {wt} checkout -- .`) before making the next one, and verify: demo passes on clean tree, fails with patch; relevant tests pass with patch.
+Never use `git stash` (the stash is shared with other worktrees of this repository); to flip between clean and patched use `git apply` / `git apply -R` / `git checkout -- .` only. After producing each patch, restore the worktree (`git -C {wt} checkout -- .`) before making the next one, and verify: demo passes on clean tree, fails with patch; relevant tests pass with patch.
 Python to use: /venv/bin/python (has torch, numpy, numba, pandas, pytest). There is no network. Finish by replying with a short summary listing the three changes (one line each).""")
